@@ -2,6 +2,7 @@
 package props
 
 import (
+	"sync/atomic"
 	"fmt"
 	"path/filepath"
 	"strings"
@@ -11,6 +12,7 @@ import (
 
 // Ctx is what a check gets.
 type Ctx struct {
+	confirms int32
 	Env    *core.Env
 	R      *core.Report
 	Replay string
@@ -95,6 +97,16 @@ func (c *Ctx) TypecheckAll(tag string, cases []TC) ([]core.CompileResult, []stri
 		out[i] = res[i].ToCompileResult("")
 	}
 	return out, dirs, nil
+}
+
+// ConfirmBudget limits how many candidate violations are re-run through the CLI binary (and given
+// witnesses): past the cap the verdict is decided already and further suspects are only counted.
+func (c *Ctx) ConfirmBudget() bool {
+	if atomic.AddInt32(&c.confirms, 1) > 40 {
+		c.R.Count("suspects_beyond_confirmation_cap(counted, not re-run)", 1)
+		return false
+	}
+	return true
 }
 
 // ConfirmCLI re-runs one case through the real ferret binary (type-check only).
